@@ -940,8 +940,10 @@ class Extractor:
                     alias[n.targets[0].id] = t
         out = []
         for n in ast.walk(f.node):
-            if isinstance(n, ast.Call) and (dotted(n.func) or [None])[-1] in DASK_TASK_CALLS and n.args:
-                a = n.args[0]
+            if isinstance(n, ast.Call) and (dotted(n.func) or [None])[-1] in DASK_TASK_CALLS \
+                    and (n.args or any(k.arg == "func" for k in n.keywords)):
+                # the task function: first positional argument, or the keyword `func=` (x.map_overlap(func=f, ...))
+                a = next((k.value for k in n.keywords if k.arg == "func"), None) or n.args[0]
                 if isinstance(a, ast.Call) and isinstance(a.func, ast.Call) \
                         and (dotted(a.func.func) or [None])[-1] in DASK_TASK_CALLS and a.func.args:
                     a = a.func.args[0]      # from_delayed(delayed(F)(...), ...)
